@@ -447,33 +447,47 @@ func c06special(c *core.Ctx) {
 			"inc.yaml":     "services:\n" + svc("x", "x") + "secrets:\n  envsec: {environment: SVAL}\n"},
 			check: func(im map[string]string) string { return "" }},
 	}
+	// include cycles whose edges are spelled in other ways than ./file
+	for _, sp := range []struct{ name, fwd, back string }{
+		{"bare", "sub/a.yaml", "../compose.yaml"}, {"updown", "./d/../sub/a.yaml", "../d/../compose.yaml"},
+		{"abs", "${ROOT}/sub/a.yaml", "${ROOT}/compose.yaml"}, {"abs-dot", "${ROOT}/./sub/a.yaml", "${ROOT}/./compose.yaml"},
+		{"abs-updown", "${ROOT}/sub/../sub/a.yaml", "${ROOT}/sub/../compose.yaml"}} {
+		cases = append(cases, sc{name: "cycle-2-spelled-" + sp.name, wantErr: true, env: map[string]string{"ROOT": RootToken}, files: map[string]string{"d/.keep": "",
+			"compose.yaml": "include:\n  - " + sp.fwd + "\nservices:\n" + svc("m", "m"), "sub/a.yaml": "include:\n  - " + sp.back + "\nservices:\n" + svc("a", "a")}})
+	}
+	deliveries := []struct {
+		name           string
+		inMem, relName bool
+	}{{"", false, false}, {"/content", true, false}, {"/content-relative-name", true, true}}
 	for _, tc := range cases {
-		tc := tc
-		c.Do("special/"+tc.name, func() core.Outcome {
-			s := &Scn{Files: tc.files, Main: []string{"compose.yaml"}, Env: tc.env}
-			root := s.Materialise()
-			p, err := s.LoadAt(root)
-			sample := map[string]any{"case": tc.name, "files": tc.files}
-			if pe, ok := err.(*core.PanicError); ok {
-				return core.Outcome{Class: "panic", Sample: sample, Viol: &core.Violation{Key: "panic@" + pe.Site, Msg: tc.name + ": " + pe.Error(), Detail: pe.Stack}}
-			}
-			if tc.wantErr {
-				if err == nil {
-					return core.Outcome{Class: "acc", Sample: sample, Viol: &core.Violation{Key: "accepted:" + tc.name, Msg: tc.name + ": must be an error but loads"}}
+		for _, dl := range deliveries {
+			tc, dl := tc, dl
+			c.Do("special/"+tc.name+dl.name, func() core.Outcome {
+				s := &Scn{Files: tc.files, Main: []string{"compose.yaml"}, Env: tc.env, InMem: dl.inMem, RelNames: dl.relName}
+				root := s.Materialise()
+				p, err := s.LoadAt(root)
+				sample := map[string]any{"case": tc.name, "files": tc.files}
+				if pe, ok := err.(*core.PanicError); ok {
+					return core.Outcome{Class: "panic", Sample: sample, Viol: &core.Violation{Key: "panic@" + pe.Site, Msg: tc.name + ": " + pe.Error(), Detail: pe.Stack}}
+				}
+				if tc.wantErr {
+					if err == nil {
+						return core.Outcome{Class: "acc", Sample: sample, Viol: &core.Violation{Key: "accepted:" + tc.name, Msg: tc.name + ": must be an error but loads"}}
+					}
+					return core.Outcome{Class: "special/" + tc.name, Sample: sample}
+				}
+				if err != nil {
+					return core.Outcome{Class: "rej", Sample: sample, Viol: &core.Violation{Key: "rejected:" + tc.name, Msg: tc.name + ": " + err.Error()}}
+				}
+				im := map[string]string{}
+				for n, sv := range p.Services {
+					im[n] = sv.Image
+				}
+				if msg := tc.check(im); msg != "" {
+					return core.Outcome{Class: "diff", Sample: sample, Viol: &core.Violation{Key: "wrong:" + tc.name, Msg: tc.name + ": " + msg}}
 				}
 				return core.Outcome{Class: "special/" + tc.name, Sample: sample}
-			}
-			if err != nil {
-				return core.Outcome{Class: "rej", Sample: sample, Viol: &core.Violation{Key: "rejected:" + tc.name, Msg: tc.name + ": " + err.Error()}}
-			}
-			im := map[string]string{}
-			for n, sv := range p.Services {
-				im[n] = sv.Image
-			}
-			if msg := tc.check(im); msg != "" {
-				return core.Outcome{Class: "diff", Sample: sample, Viol: &core.Violation{Key: "wrong:" + tc.name, Msg: tc.name + ": " + msg}}
-			}
-			return core.Outcome{Class: "special/" + tc.name, Sample: sample}
-		})
+			})
+		}
 	}
 }
